@@ -411,8 +411,10 @@ class Generator:
             syntax_ok = False
         if self.syntax_only and not syntax_ok:
             return None
-        return Op(f'{k}:{"clear" if v is None else "set"}', f'{path}.{a} = {v!r:.60}', m, path, slot,
-                  lambda: setattr(m, a, v), syntax_ok=syntax_ok, donors=donors, attr=a)
+        o = Op(f'{k}:{"clear" if v is None else "set"}', f'{path}.{a} = {v!r:.60}', m, path, slot,
+               lambda: setattr(m, a, v), syntax_ok=syntax_ok, donors=donors, attr=a)
+        o.assigned = v
+        return o
 
     def _gen_value(self, m, a, cur):
         r = self.r
